@@ -17,7 +17,10 @@ LEVEL_TEXT = ("Generated relations of every kind (matrix, constraint_from_str, N
               "assignment and a 1-3 step slicing sequence. Oracle: value computed from the case description "
               "(table index arithmetic / eval of the expression in a dict namespace). The same generated cases are "
               "run in interpreters with PYTHONHASHSEED 0,1,2,3,7,11; agreement with the seed-independent reference "
-              "implies identical values across seeds. Sampling, not proof.")
+              "implies identical values across seeds. Relations built with "
+              "constraint_from_external_definition (helper function in a generated python file) are included, with a "
+              "second relation using a same-named helper from another file created before, after or between. Sampling, "
+              "not proof.")
 LEVEL_NOTE = ("Trusted: Python eval for the reference, Hypothesis. Python-function relations are checked against "
               "the documented positional binding to the given variable list; expression-based relations against "
               "binding by name. ConditionalRelation(return_neutral=False) documents a 0-ary result on a false "
